@@ -148,8 +148,9 @@ DEFAULT_IGNORE = ("logger.", "logging.", "time.", "print", "warnings.")
 class Interp:
     def __init__(self, idx, *, types=None, domains=None, volatile=(), handlers=None, inline=(),
                  ignore=DEFAULT_IGNORE, unknown_calls="error", max_paths=200000, max_loop=64,
-                 isinstance_oracle=None):
+                 isinstance_oracle=None, inline_all=()):
         self.idx = idx
+        self.inline_all = set(inline_all)  # classes whose un-handled methods are inlined (robust to helper extraction)
         self.types = dict(types or {})  # receiver key -> class name, e.g. {'self': 'Matcher'}
         self.domains = dict(domains or {})
         self.volatile = set(volatile)
@@ -879,6 +880,12 @@ class Interp:
             return self.call_function(fi, a, recv.name)
         if recv is not None and isinstance(recv, Residual):
             cls = self.types.get(recv.text)
+            if cls and cls in self.inline_all and f"{cls}.{meth}" not in self.inline and self.idx.has_method(cls, meth):
+                m0 = self.idx.method(cls, meth)
+                if m0.cls in self.inline_all or m0.cls == cls:
+                    a = dict(kwargs)
+                    a["__pos__"] = args
+                    return self.call_function(m0, a, recv.text)
             if cls and (f"{cls}.{meth}" in self.inline):
                 fi = self.idx.method(cls, meth)
                 a = dict(kwargs)
